@@ -215,7 +215,9 @@ def run(rep, tier, seed):
         rep.case(tot["ncases"])
 
         def sig_of(rec, cl):
-            mine = [c for c in cl if c.startswith(("assign-", "C01-", "cpath-", "pypath-", "C03-"))]
+            # (the round-tripped definition must behave like the specification of the ORIGINAL - the agreement of the two
+            # paths with each other is C03's business, known finding F28 included)
+            mine = [c for c in cl if c.startswith(("assign-", "C01-", "cpath-", "pypath-"))]
             return "C14:trait-definition-%s:%s:%s" % (rec.get("via"), rec["cfg"]["t"], "+".join(mine)) if mine else None
         vc.judge_filtered(rep, trace2, tot["nlines"], sig_of)
         rep.rule = ("(a) %d recorded steps of seeded histories that continue on copies (pickle protocols 0-5, deepcopy, "
